@@ -665,3 +665,13 @@ def run(p: Program, rep: Report, tier: str) -> None:
         else:
             rep.violation("R5.8", construct(fn_, text=cons), where(fn_, node), msg)
     rep.require_instances("R5.8", 1)
+    # ---------------------------------------------------------------- R5.9 the application's iterable is never dropped (WSGI)
+    from .stream_common import wsgi_iterable_never_dropped
+    for kind, fn_, node, cons, msg in wsgi_iterable_never_dropped(p, rep):
+        if kind == "ok":
+            rep.ok("R5.9", msg)
+        elif kind == "undecided":
+            rep.undecide("R5.9", msg)
+        else:
+            rep.violation("R5.9", construct(fn_, text=cons), where(fn_, node), msg)
+    rep.require_instances("R5.9", 5)
